@@ -924,6 +924,13 @@ def check_lte(ctx, spec, rtol=1e-6, atol=1e-10, gated=True, later_Tn=None, tmax=
     elif res == 0:
         lo = judge.lo
         E = mismatch(hy, lo, judge, confirm=True)
+        for step in (0.02, 0.05, 0.1):
+            # no valid matching exactly there (findMatching's own slow-wall problems belong to
+            # C03): the lowest velocity at which one exists
+            if E is not None or judge.lo + step >= judge.hi:
+                break
+            lo = judge.lo + step
+            E = mismatch(hy, lo, judge, confirm=True)
         if E is None:
             ctx.count("lte_static_unscannable", case)
             UNJUDGED.append(("static sentinel: no valid matching at the lowest velocity %.6f"
